@@ -90,6 +90,10 @@ proof fn lemma_innermost_in_stack(stack: Seq<(String, Ref)>, name: Seq<char>)
 spec fn params_const(ps: Seq<(String, Ref, Span, Type)>, vars: Seq<Var>) -> bool {
     forall|k: int| 0 <= k < ps.len() ==> ((#[trigger] ps[k]).1 as int) < vars.len() && vars[ps[k].1 as int].kind is Const
 }
+/// the type of every parameter is one the type checker can translate
+spec fn params_tys(ps: Seq<(String, Ref, Span, Type)>, n: int) -> bool {
+    forall|k: int| 0 <= k < ps.len() ==> rt_up((#[trigger] ps[k]).3, n)
+}
 spec fn fields_nodecl(fs: Seq<(String, Expression)>) -> bool { forall|i: int| 0 <= i < fs.len() ==> e_nodecl((#[trigger] fs[i]).1) }
 spec fn fields_up(fs: Seq<(String, Expression)>, n: int) -> bool { forall|i: int| 0 <= i < fs.len() ==> e_up((#[trigger] fs[i]).1, n) }
 spec fn all_nodecl(ss: Seq<Statement>) -> bool { forall|i: int| 0 <= i < ss.len() ==> s_nodecl(#[trigger] ss[i]) }
@@ -242,6 +246,13 @@ impl Resolver {
 //@ fn sylt-compiler/src/name_resolution.rs ty
 //@   in Resolver
 //@   mode assumed
+//@   ret r
+//@   spec
+        requires self.inv(),
+        // assumed: user types name declared variables (ty_assignable, proved, is what it calls) and a
+        // `Resolved` type carries one of the seven primitive run-time types (all parse_type produces)
+        ensures r is Ok ==> rt_up(r->Ok_0, self.variables@.len() as int),
+//@   endspec
 //@ end
     #[verifier::external_body]
     fn opaque_fields(&self, f: &HashMap<Identifier, ParserType>) -> ResolveResult<HashMap<String, (Span, Type)>> { unimplemented!() }
@@ -631,6 +642,7 @@ impl Resolver {
 //@   loop 3 binder itp
                     invariant is_prefix(old(self).stack@, self.stack@), self.frame(old(self)), ss == old(self).stack@.len(), //# C09,C02 expression.loop3.scope_stack_between_iterations
                         params_const(params@, self.variables@), //# C04 expression.loop.parameters_are_constants
+                        params_tys(params@, self.variables@.len() as int), //# C07 expression.loop3.parameter_types_are_translatable
                         self.stack@.len() == ss + params@.len(), //# C07 expression.loop3.aux2
                         self.inv(), //# C07,C09 expression.loop3.aux3
                         itp.seq().len() == parser_params@.len(), params@.len() == itp.index@, //# - expression.loop3.aux4
